@@ -1,2 +1,131 @@
--- driver stub for C07 (replaced when the model is built)
-def main : IO Unit := pure ()
+import PyramidModel.Prelude
+import PyramidModel.Lemmas.ResourceUrlSpec
+/-! Driver for C07: one JSON case per line.  Text = list of code points, WSGI strings / bytes = list of 0..255.
+
+in : {"op":"res","tree":T,"pos":[text…],"anc":n,"vroot":[b…]|null,"els":[text…],"app":text,"script":text}
+       T = {"g":bool,"k":[[name,T],…]}
+     {"op":"find","tree":T,"start":[text…],"path":{"s":text}|{"t":[text…]}}
+     {"op":"quote","seg":text}
+out: res   → every observable of the resource at `pos` (paths, lookups, ResourceURL, URL, virtual_root, the
+             generated URL requested back) + "spec" (what the property demands, Lemmas/ResourceUrlSpec.lean)
+     find  → {"ok":position} | {"err":…}
+     quote → {"q":text,"back":text|null}     (quote_path_segment, and percent-decode + UTF-8 decode of it) -/
+open Pyr Pyr.Trav Pyr.ResUrl Lean
+
+namespace DrvC07
+
+def textOf (j : Json) : Except String Text := do
+  let cs : List Nat ← fromJson? j
+  pure (cs.map Char.ofNat)
+
+def bytesOf (j : Json) : Except String Bytes := do
+  let cs : List Nat ← fromJson? j
+  pure (cs.map UInt8.ofNat)
+
+def textsOf (j : Json) : Except String (List Text) :=
+  match j with
+  | .arr xs => xs.toList.mapM textOf
+  | _ => throw "expected a list of texts"
+
+def jText (t : Text) : Json := toJson (t.map Char.toNat)
+def jTexts (ts : List Text) : Json := Json.arr (ts.map jText).toArray
+
+partial def parseTree (j : Json) : Except String Tree := do
+  let g : Bool ← getAs j "g"
+  let kj ← getField j "k"
+  match kj with
+  | .arr xs =>
+    let kids ← xs.toList.mapM fun p =>
+      match p with
+      | .arr #[n, t] => do
+        let name ← textOf n
+        let sub ← parseTree t
+        pure (name, sub)
+      | _ => throw "bad child"
+    pure (Tree.mk g kids)
+  | _ => throw "bad kids"
+
+def parseSoT (j : Json) : Except String StrOrTuple :=
+  match j.getObjVal? "s" with
+  | .ok s => do pure (.str (← textOf s))
+  | .error _ => do
+    let t ← getField j "t"
+    pure (.tup (← textsOf t))
+
+def optBytes (j : Json) (k : String) : Except String (Option Bytes) :=
+  match j.getObjVal? k with
+  | .ok .null => pure none
+  | .ok v => do pure (some (← bytesOf v))
+  | .error _ => pure none
+
+def errName : Err → String
+  | .urlDecode => "urldecode"
+  | .unicodeDecode => "unicodedecode"
+  | .unicodeEncode => "unicodeencode"
+  | .keyError => "keyerror"
+  | .outsideModel => "outside"
+  | .badStart => "badstart"
+
+def jResult (r : Result) : Json := Json.mkObj [
+  ("context", jTexts r.context), ("view_name", jText r.viewName), ("subpath", jTexts r.subpath),
+  ("traversed", jTexts r.traversed), ("virtual_root", jTexts r.virtualRoot),
+  ("virtual_root_path", jTexts r.virtualRootPath)]
+
+def jOut {α} (f : α → Json) : Except Err α → Json
+  | .ok a => Json.mkObj [("ok", f a)]
+  | .error e => Json.mkObj [("err", Json.str (errName e))]
+
+def jOpt {α} (f : α → Json) : Option α → Json
+  | some a => f a
+  | none => Json.null
+
+def handle (j : Json) : Except String Json := do
+  let op : String ← getAs j "op"
+  match op with
+  | "res" =>
+    let tree ← parseTree (← getField j "tree")
+    let pos ← textsOf (← getField j "pos")
+    let anc : Nat ← getAs j "anc"
+    let vroot ← optBytes j "vroot"
+    let els ← textsOf (← getField j "els")
+    let app ← textOf (← getField j "app")
+    let script ← textOf (← getField j "script")
+    let a := pos.take anc
+    let q := pos.drop anc
+    let u := resourceURL pos vroot
+    let relStr : Text := if q = [] then [] else joinPathTuple q
+    let url0 := resourceUrl [] pos vroot []
+    let vt : Option (List Seg) := vroot.bind headerVroot
+    pure (Json.mkObj [
+      ("rpt", jTexts (resourcePathTuple pos els)),
+      ("rp", jText (resourcePath pos els)),
+      ("fas", jOut jTexts (findResource tree a (.str (resourcePath pos [])))),
+      ("fat", jOut jTexts (findResource tree a (.tup (resourcePathTuple pos [])))),
+      ("frs", jOut jTexts (findResource tree a (.str relStr))),
+      ("frt", jOut jTexts (findResource tree a (.tup q))),
+      ("phys", jText u.physicalPath), ("virt", jText u.virtualPath),
+      ("physt", jTexts u.physicalPathTuple), ("virtt", jTexts u.virtualPathTuple),
+      ("url", jText (resourceUrl app pos vroot els)),
+      ("rpath", jText (resourceUrl script pos vroot els)),
+      ("vr", jOut jTexts (virtualRoot tree pos vroot)),
+      ("back", jOut jResult (requestBack tree url0 vroot)),
+      ("spec", Json.mkObj [
+        ("vt", jOpt jTexts vt),
+        ("virt", jText (specVirtualPath pos vt)),
+        ("url", jText (specUrl app pos vt els)),
+        ("inside", jOpt (fun v => Json.bool (inside v pos)) vt)])])
+  | "find" =>
+    let tree ← parseTree (← getField j "tree")
+    let start ← textsOf (← getField j "start")
+    let path ← parseSoT (← getField j "path")
+    pure (jOut jTexts (findResource tree start path))
+  | "quote" =>
+    let s ← textOf (← getField j "seg")
+    let q := quoteSegment s
+    let back : Option Text := (asciiEncode q).bind fun b => utf8Dec (unquoteToBytes b)
+    pure (Json.mkObj [("q", jText q), ("back", jOpt jText back)])
+  | _ => throw s!"unknown op {op}"
+
+end DrvC07
+
+def main : IO Unit := jsonDriver DrvC07.handle
